@@ -92,6 +92,11 @@ def send_sites(ctx, func):
                 d = m
             elif isinstance(m, ast.Name):
                 d = local_dict_for(func, m.id, c)
+                if d is not None and any(isinstance(t_, (ast.Tuple, ast.List)) and any(isinstance(x, ast.Subscript) and isinstance(x.value, ast.Name) and x.value.id == m.id for x in t_.elts)
+                                         for a_ in ast.walk(func.node) if isinstance(a_, ast.Assign) for t_ in a_.targets):
+                    # keys stored through an unpacking (`d['a'], d['b'] = pair`): not a form the message-shape rules read
+                    raise AnalysisError('%s: keys of the message sent by `%s` are stored through a tuple unpacking into `%s`; the wire-schema rules read message shapes from '
+                                        'dict literals and single key stores only' % (func.qualname, unparse(c)[:50], m.id))
             if d is not None:
                 out.append((c, d, dict_type(d), c.args[0]))
             else:
